@@ -9,6 +9,13 @@ meta = json.load(open(os.path.join(d, 'meta.json')))
 props = sys.argv[2:] or [meta['property']]
 subprocess.check_call(['git', '-C', '/repo', 'diff', '--quiet'])
 subprocess.check_call(['git', '-C', '/repo', 'apply', os.path.join(d, 'patch.diff')])
+# the evidence files must describe /repo as it is, not the seeded tree: keep and restore them
+import shutil, tempfile
+keep = tempfile.mkdtemp(prefix='rsv_seedtest_')
+for p in props:
+    f = os.path.join(VERIF, 'evidence', p + '.json')
+    if os.path.exists(f):
+        shutil.copy(f, os.path.join(keep, p + '.json'))
 try:
     for p in props:
         r = subprocess.run([os.path.join(VERIF, 'bin', 'rsv'), 'check', p, '--tier', 'quick'], cwd=VERIF,
@@ -20,3 +27,8 @@ try:
 finally:
     subprocess.check_call(['git', '-C', '/repo', 'checkout', '--', '.'])
     subprocess.run(['git', '-C', '/repo', 'clean', '-fdq', 'tests'])
+    for p in props:
+        f = os.path.join(keep, p + '.json')
+        if os.path.exists(f):
+            shutil.copy(f, os.path.join(VERIF, 'evidence', p + '.json'))
+    shutil.rmtree(keep, ignore_errors=True)
